@@ -29,6 +29,10 @@ type structCase struct {
 	obj    interface{}
 	decl   string
 	expect string
+	// the other models of the same FromObjects call (foreign-key targets), their order, and their declarations
+	others     []interface{}
+	childFirst bool
+	extra      string
 }
 
 func ptrBool() *bool       { v := true; return &v }
@@ -136,8 +140,23 @@ func main() {
 			bopts = append(bopts, sql_builder.WithPluralTableName())
 			sopts = append(sopts, sqlize.WithPluralTableName())
 		}
+		objs := append([]interface{}{c.obj}, c.others...)
+		if !c.childFirst {
+			objs = append(append([]interface{}{}, c.others...), c.obj)
+		}
+		if c.extra == "" {
+			c.extra = "()"
+		}
+		mapping := func(b *sql_builder.SqlBuilder) {
+			m := map[string]string{}
+			for _, o := range objs {
+				ob, tb := b.GetTableName(o)
+				m[ob] = tb
+			}
+			b.MappingTables(m)
+		}
 		sb := sql_builder.NewSqlBuilder(bopts...)
-		ddl := guard(func() string { return sb.AddTable(c.obj) })
+		ddl := guard(func() string { mapping(sb); return sb.AddTable(c.obj) })
 		// the other keyword-case option (C10): same text up to ASCII case
 		fopts := []sql_builder.SqlBuilderOption{sql_builder.WithSqlTag(c.cfg.tagKey), sql_builder.WithDialect(dialectOpt(c.cfg.dialect))}
 		if !c.cfg.lower {
@@ -149,17 +168,17 @@ func main() {
 		if c.cfg.plural {
 			fopts = append(fopts, sql_builder.WithPluralTableName())
 		}
-		ddlFlip := guard(func() string { return sql_builder.NewSqlBuilder(fopts...).AddTable(c.obj) })
+		ddlFlip := guard(func() string { fb := sql_builder.NewSqlBuilder(fopts...); mapping(fb); return fb.AddTable(c.obj) })
 		s := sqlize.NewSqlize(sopts...)
 		load := guard(func() string {
-			if err := s.FromObjects(c.obj); err != nil {
+			if err := s.FromObjects(objs...); err != nil {
 				return "error:" + strings.SplitN(err.Error(), "\n", 2)[0]
 			}
 			return "ok"
 		})
 		dump := guard(func() string { return s.StringUp() })
 		hash := guard(func() string { return fmt.Sprint(s.HashValue()) })
-		fmt.Fprintf(w, "(case %s struct (cfg %s %v %v) (bcfg %v %v) %s %s %s %s %s %s %s)\n", c.id, c.cfg.dialect, c.cfg.lower, false,
-			c.cfg.comment, c.cfg.plural, c.decl, c.expect, q(ddl), q(ddlFlip), q(load), q(dump), q(hash))
+		fmt.Fprintf(w, "(case %s struct (cfg %s %v %v) (bcfg %v %v) %s %s %s %s %s %s %s %s)\n", c.id, c.cfg.dialect, c.cfg.lower, false,
+			c.cfg.comment, c.cfg.plural, c.decl, c.expect, q(ddl), q(ddlFlip), q(load), q(dump), q(hash), c.extra)
 	}
 }
